@@ -569,7 +569,8 @@ T2Shapes == TriggerShapes("t2")
 \* second-order mutations: every shape (mutants included) cut at every byte / followed by more bytes
 Derived(S) ==
     IF ~Deep THEN S ELSE
-    S \cup UNION {{Sh("trunc-of-" \o (IF s.tag \in {"wellformed", "trunc", "empty"} THEN "plain" ELSE "mutant"), SubSeq(s.b, 1, k))
+    S \cup UNION {{[Sh("trunc-of-" \o (IF s.tag \in {"wellformed", "trunc", "empty"} THEN "plain" ELSE "mutant"), SubSeq(s.b, 1, k))
+                       EXCEPT !.hashAt = IF s.hashAt[1] # 0 /\ k >= s.hashAt[1] + s.hashAt[2] - 1 THEN s.hashAt ELSE <<0, 0>>]
                       : k \in 0..(Len(s.b) - 1)} : s \in S}
       \cup {Sh("trailing-on-mutant", s.b \o t) : s \in {x \in S : x.tag \notin {"wellformed", "trailing"} /\ x.hashAt[1] = 0},
                                                 t \in {<<0>>, <<255>>}}
@@ -640,6 +641,12 @@ JunkSafe == [][(last = NoCase /\ last' # NoCase) => Safe(srv, srv', last')]_vars
 
 \* the same as a state predicate (the case record keeps the state before the step)
 JunkSafeInv == last # NoCase => Safe(last.pre, srv, last)
+
+\* Consistency of the export: the model world's hash value is received only in cases that tell the
+\* replayer where to put the real one (hashAt), and there the payload is read at that position.
+SpliceConsistent ==
+    (last # NoCase /\ last.ch = "hash" /\ last.model.st = "deliver")
+        => (last.model.vals[1] = ServerHash <=> last.hashAt[1] # 0)
 
 \* what an attacker can never touch
 OthersUntouched == srv.good = InitSrv(TRUE).good /\ srv.world = "w0"
